@@ -17,6 +17,10 @@ struct St {
     v: Violations,
     shapes: BTreeSet<u64>,
     sample: Option<serde_json::Value>,
+    /// one long-lived formatter per configuration: every case is formatted on it as well, after
+    /// whatever this worker formatted before (content must not depend on earlier entries)
+    reused: std::collections::HashMap<usize, Runner>,
+    reused_compared: u64,
 }
 
 fn shape(exp: &Expected) -> u64 {
@@ -41,26 +45,41 @@ fn check(st: &mut St, cfg: &CfgD, pristine: &Emf, entry: &EntryD) {
         st.out_of_domain += 1;
         return;
     }
+    check_one(st, cfg, pristine, entry, false);
+    check_one(st, cfg, pristine, entry, true);
+}
+
+fn check_one(st: &mut St, cfg: &CfgD, pristine: &Emf, entry: &EntryD, reused: bool) {
     let mut out = std::mem::take(&mut st.out);
-    let outcome = run_fresh(pristine, cfg.mult, entry, &mut out);
-    let replay = || json!({"config": cfg.to_json(), "entry": entry.to_json(), "output": String::from_utf8_lossy(&out)});
+    let outcome = if reused {
+        st.reused_compared += 1;
+        out.clear();
+        let mult = cfg.mult;
+        st.reused.entry(pristine as *const Emf as usize).or_insert_with(|| Runner::from_emf(pristine.clone(), mult)).format(entry, &mut out)
+    } else {
+        run_fresh(pristine, cfg.mult, entry, &mut out)
+    };
+    let suffix = if reused { ":on-reused-formatter" } else { "" };
+    let replay = || json!({"config": cfg.to_json(), "entry": entry.to_json(), "formatter": if reused { "long-lived (had formatted other entries before)" } else { "fresh" }, "output": String::from_utf8_lossy(&out)});
     match &outcome {
         Outcome::Ok => match parse_output(&out) {
             Ok(recs) => {
                 let exp = expected_records(cfg, entry);
-                st.compared += 1;
-                st.records += recs.len() as u64;
-                st.shapes.insert(shape(&exp));
+                if !reused {
+                    st.compared += 1;
+                    st.records += recs.len() as u64;
+                    st.shapes.insert(shape(&exp));
+                }
                 if let Err(msg) = compare(cfg, &exp, &recs) {
                     let class: String = msg.split(':').next().unwrap_or("").chars().filter(|c| c.is_ascii_alphabetic() || *c == ' ').collect::<String>().trim().replace(' ', "-");
-                    st.v.add(format!("record-mismatch:{class}"), format!("emitted records differ from the reference interpretation: {msg}"), replay());
+                    st.v.add(format!("record-mismatch:{class}{suffix}"), format!("emitted records differ from the reference interpretation: {msg}"), replay());
                 } else if st.sample.is_none() && recs.len() > 1 && recs.iter().any(|r| r.members.len() > 3) {
                     st.sample = Some(replay());
                 }
             }
-            Err(msg) => st.v.add("unparseable-output", format!("output is not well-formed EMF: {msg}"), replay()),
+            Err(msg) => st.v.add(format!("unparseable-output{suffix}"), format!("output is not well-formed EMF: {msg}"), replay()),
         },
-        Outcome::Validation(e) => st.v.add("valid-entry-rejected", format!("a defect-free entry was rejected: {e}"), replay()),
+        Outcome::Validation(e) => st.v.add(format!("valid-entry-rejected{suffix}"), format!("a defect-free entry was rejected: {e}"), replay()),
         Outcome::Io(e) => st.v.add("io-error-on-infallible-writer", format!("Io error {e}"), replay()),
     }
     st.out = out;
@@ -78,7 +97,9 @@ fn main() {
     let states = walk(&ls, St::default, |st, _l, cfg, pristine, entry| check(st, cfg, pristine, entry));
     let mut shapes = BTreeSet::new();
     let (mut cases, mut compared, mut records, mut ood) = (0, 0, 0, 0);
+    let mut reused_total = 0u64;
     for s in states {
+        reused_total += s.reused_compared;
         cases += s.cases; compared += s.compared; records += s.records; ood += s.out_of_domain;
         shapes.extend(s.shapes);
         rep.violations.merge(s.v);
@@ -88,6 +109,7 @@ fn main() {
     rep.set("compared_with_reference", compared);
     rep.set("records_compared", records);
     rep.set("outside_documented_domain_skipped", ood);
+    rep.set("cases_repeated_on_a_long_lived_formatter", reused_total);
     rep.set("distinct_nontrivial", shapes.len() as u64);
     rep.set("rule", "complete cross products of the alphabets in emfx/gen_.rs (layers A1,A2,B,C) restricted to the documented domain; every accepted output is parsed by the strict parser and compared, as a multiset of records, with an independent reference interpretation (emfx/reference.rs::expected_records); distinct = distinct expected-record shapes (records, dimension sets, definitions, per-member kind/counts)");
     rep.set("exhaustive", true);
